@@ -14,6 +14,15 @@ pub fn b(x: bool) -> &'static str {
     }
 }
 pub fn list<T, F: Fn(&T) -> String>(xs: &[T], f: F) -> String {
+    // Coq's list notation parses very long literals in super-linear time: long lists are
+    // written as an append of pieces
+    if xs.len() > 256 {
+        let parts: Vec<String> = xs.chunks(128).map(|c| short_list(c, &f)).collect();
+        return format!("({})", parts.join(" ++ "));
+    }
+    short_list(xs, &f)
+}
+fn short_list<T>(xs: &[T], f: &dyn Fn(&T) -> String) -> String {
     let mut s = String::from("[");
     for (i, x) in xs.iter().enumerate() {
         if i > 0 {
